@@ -85,7 +85,7 @@ impl<'a, T: Value> Iterator for LevelIter<'a, T> {
                 result
             }
             Tree::PackedLeaf(PackedLeaf { values, .. }) => {
-                let node_depth = self.full_depth + self.packing_depth - self.stack.len() + 1;
+                let node_depth = self.full_depth + self.packing_depth + 1 - self.stack.len();
 
                 if node_depth == self.level {
                     let result = Some(LevelNode::Internal(node));
